@@ -232,13 +232,18 @@ Qed.
 Ltac splits := repeat match goal with |- _ /\ _ => split end.
 Definition run_ok' (c : cfg) (r : crun) : Prop :=
   let '(a, cs, text) := r in
-  Forall (chr_ok (g_utf8 c)) text /\ (if g_utf8 c then cs = 0 else cs = 0 \/ cs = 1).
+  Forall (chr_ok (g_utf8 c)) text /\ (if g_utf8 c then cs = 0 else cs = 0 \/ cs = 1 \/ cs = 2).
+
+(* the terminal's charset selection agrees with first / last_charset_flag *)
+Definition CsInv (c : cfg) (first : bool) (lcs : Z) (t : term) : Prop :=
+  if g_utf8 c then t_so t = false /\ t_ibm t = false
+  else t_g1 t = true /\ (lcs = 0 \/ lcs = 1 \/ lcs = 2) /\
+       (first = true -> lcs = 0 /\ t_ibm t = false) /\
+       (first = false -> t_ibm t = (lcs =? 2) /\ (lcs = 0 -> t_so t = false) /\ (lcs = 1 -> t_so t = true)).
 
 (* terminal modes agree with the bookkeeping of the run loop *)
 Definition Inv (c : cfg) (rs : rstate) (t : term) : Prop :=
-  t_attr t = attr_vis c (r_last rs) /\ t_ibm t = false /\ t_irm t = false /\
-  (if g_utf8 c then t_so t = false
-   else t_g1 t = true /\ (r_lcs rs = 0 \/ r_lcs rs = 1) /\ (r_first rs = false -> t_so t = (r_lcs rs =? 1))).
+  t_attr t = attr_vis c (r_last rs) /\ t_irm t = false /\ CsInv c (r_first rs) (r_lcs rs) t.
 
 Lemma chr_ok_w12 u ch : chr_ok u ch -> w12 ch.
 Proof. unfold chr_ok, w12. intuition. Qed.
@@ -268,10 +273,62 @@ Proof. unfold SameFrame. cbn. auto. Qed.
 Lemma SameFrame_cols t0 t y : SameFrame t0 t y -> t_cols t = t_cols t0.
 Proof. unfold SameFrame. intuition. Qed.
 
-Lemma Inv_mk_narrow c a cs t' :
-  g_utf8 c = false -> t_attr t' = attr_vis c a -> t_ibm t' = false -> t_irm t' = false -> t_g1 t' = true ->
-  cs = 0 \/ cs = 1 -> t_so t' = (cs =? 1) -> Inv c (mkRs a false cs) t'.
-Proof. intros U H1 H2 H3 H4 H5 H6. unfold Inv. cbn [r_last r_first r_lcs]. rewrite U. splits; auto. Qed.
+Lemma RowSt_set_ibm t y P R v : RowSt t y P R -> RowSt (set_ibm t v) y P R.
+Proof. unfold RowSt. cbn. auto. Qed.
+Lemma SameFrame_set_ibm t0 t y v : SameFrame t0 t y -> SameFrame t0 (set_ibm t v) y.
+Proof. unfold SameFrame. cbn. auto. Qed.
+
+Lemma CsInv_ibm c first lcs t : CsInv c first lcs t -> t_ibm t = true -> g_utf8 c = false /\ lcs = 2.
+Proof.
+  unfold CsInv. destruct (g_utf8 c).
+  - intros [_ H] H'. congruence.
+  - intros (_ & _ & Hf & Hn) H'. split; [reflexivity|]. destruct first.
+    + destruct (Hf eq_refl) as [_ H]. congruence.
+    + destruct (Hn eq_refl) as [H _]. rewrite H' in H. symmetry in H. lia.
+Qed.
+
+Lemma CsInv_so_utf8 c first lcs t : CsInv c first lcs t -> g_utf8 c = true -> t_so t = false /\ t_ibm t = false.
+Proof. unfold CsInv. intros H U. rewrite U in H. exact H. Qed.
+
+(* the charset switch of the run loop and of the insert block: (IBMPC_OFF if the last flag was "U"), then SI / SO / IBMPC_ON *)
+Lemma cs_switch_ok c first lcs cs t :
+  g_utf8 c = false -> CsInv c first lcs t -> cs = 0 \/ cs = 1 \/ cs = 2 ->
+  run t ((if lcs =? 2 then [TIbmOff] else []) ++ [cs_tok cs])
+    = set_ibm (set_so t (if cs =? 0 then false else if cs =? 1 then true else t_so t)) (cs =? 2)
+  /\ cur_cs (run t ((if lcs =? 2 then [TIbmOff] else []) ++ [cs_tok cs])) = cs
+  /\ CsInv c false cs (run t ((if lcs =? 2 then [TIbmOff] else []) ++ [cs_tok cs])).
+Proof.
+  intros U HI Hcs. unfold CsInv in *. rewrite U in *. destruct HI as (Hg1 & Hl & Hf & Hn).
+  assert (Hib : lcs <> 2 -> t_ibm t = false).
+  { intros Hne. destruct first.
+    - apply (Hf eq_refl).
+    - destruct (Hn eq_refl) as [H _]. rewrite H. lia. }
+  assert (E : run t ((if lcs =? 2 then [TIbmOff] else []) ++ [cs_tok cs])
+              = set_ibm (set_so t (if cs =? 0 then false else if cs =? 1 then true else t_so t)) (cs =? 2)).
+  { destruct (lcs =? 2) eqn:L2.
+    - destruct Hcs as [-> | [-> | ->]]; destruct t; reflexivity.
+    - assert (Hi : t_ibm t = false) by (apply Hib; lia).
+      destruct Hcs as [-> | [-> | ->]]; destruct t; cbn in *; subst; reflexivity. }
+  rewrite E. split; [reflexivity|]. split.
+  - unfold cur_cs. cbn. destruct Hcs as [-> | [-> | ->]]; cbn; rewrite ?Hg1; reflexivity.
+  - cbn. splits; auto; try discriminate. intros _.
+    destruct Hcs as [-> | [-> | ->]]; cbn; splits; auto; intros; try lia; try reflexivity.
+Qed.
+
+Lemma cs_same_ok c lcs t : g_utf8 c = false -> CsInv c false lcs t -> cur_cs t = lcs.
+Proof.
+  unfold CsInv, cur_cs. intros ->.
+  intros (Hg1 & Hl & _ & Hn). destruct (Hn eq_refl) as (Hi & H0 & H1). rewrite Hi, Hg1.
+  destruct Hl as [-> | [-> | ->]].
+  - rewrite (H0 eq_refl). reflexivity.
+  - rewrite (H1 eq_refl). reflexivity.
+  - reflexivity.
+Qed.
+
+Lemma cs_utf8_ok c first lcs t : g_utf8 c = true -> CsInv c first lcs t -> cur_cs t = 0 /\ forall f l, CsInv c f l t.
+Proof.
+  unfold CsInv, cur_cs. intros ->. intros [-> ->]. split; [reflexivity|]. intros; split; reflexivity.
+Qed.
 
 Lemma emit_run_ok c rs r t0 t y P R :
   cfg_ok c -> run_ok' c r -> Inv c rs t -> RowSt t y P R -> SameFrame t0 t y -> 0 <= y < zlen (t_grid t0) ->
@@ -282,52 +339,39 @@ Lemma emit_run_ok c rs r t0 t y P R :
           /\ r_first (snd (emit_run c rs r)) = false.
 Proof.
   intros Hc Hok HI HR HF Hy Hfit. destruct r as [[a cs] text]. cbn [snd] in Hfit.
-  destruct Hok as [Htext Hcs]. destruct HI as (Iattr & Iibm & Iirm & Ics).
-  assert (Hcs2 : cs =? 2 = false) by (destruct (g_utf8 c); lia).
-  unfold emit_run. rewrite Hcs2. rewrite (trans_id _ _ Htext). cbn [fst snd].
+  destruct Hok as [Htext Hcs]. destruct HI as (Iattr & Iirm & Ics).
+  unfold emit_run.
+  assert (Etext : (if cs =? 2 then text else map trans_chr text) = text).
+  { destruct (cs =? 2); [reflexivity|]. apply (trans_id _ _ Htext). }
+  rewrite Etext. cbn [fst snd].
   rewrite !run_app.
   (* attribute *)
   set (ta := if r_last rs =? a then [] else attr_to_escape c a).
   assert (H1 : exists t1, run t ta = t1 /\ RowSt t1 y P R /\ SameFrame t0 t1 y /\ t_attr t1 = attr_vis c a
-                          /\ t_ibm t1 = t_ibm t /\ t_irm t1 = t_irm t /\ t_so t1 = t_so t /\ t_g1 t1 = t_g1 t).
+                          /\ t_irm t1 = false /\ CsInv c (r_first rs) (r_lcs rs) t1).
   { unfold ta. destruct (r_last rs =? a) eqn:E.
     - exists t. assert (r_last rs = a) by lia. subst a. splits; auto.
     - exists (set_attr t (attr_vis c a)). rewrite attr_escape_run by assumption.
       splits; auto using RowSt_set_attr, SameFrame_set_attr. }
-  destruct H1 as (t1 & -> & HR1 & HF1 & Hat1 & Hib1 & Hir1 & Hso1 & Hg11).
+  destruct H1 as (t1 & -> & HR1 & HF1 & Hat1 & Hir1 & Ics1).
   (* charset *)
   set (switch := negb (g_utf8 c) && (r_first rs || negb (r_lcs rs =? cs))).
   set (tc := if switch then (if r_lcs rs =? 2 then [TIbmOff] else []) ++ [cs_tok cs] else []).
   assert (H2 : exists t2, run t1 tc = t2 /\ RowSt t2 y P R /\ SameFrame t0 t2 y /\ t_attr t2 = attr_vis c a
                           /\ t_irm t2 = false /\ cur_cs t2 = cs
-                          /\ Inv c (mkRs a false (if switch then cs else r_lcs rs)) t2).
+                          /\ CsInv c false (if switch then cs else r_lcs rs) t2).
   { unfold tc, switch. destruct (g_utf8 c) eqn:U.
-    - cbn [negb andb]. exists t1. subst cs. splits; auto; try congruence.
-      + unfold cur_cs. rewrite Hib1, Iibm, Hso1, Ics. reflexivity.
-      + unfold Inv. cbn [r_last r_first r_lcs]. rewrite U. splits; congruence.
-    - cbn [negb andb]. destruct Ics as (Ig1 & Hl & Hfirst).
+    - cbn [negb andb]. exists t1. subst cs. destruct (cs_utf8_ok c _ _ t1 U Ics1) as [Hc0 Hany].
+      splits; auto.
+    - cbn [negb andb].
       destruct (r_first rs || negb (r_lcs rs =? cs)) eqn:S.
-      + assert (L2 : r_lcs rs =? 2 = false) by (destruct Hl as [Hl|Hl]; rewrite Hl; reflexivity). rewrite L2. cbn [app].
-        destruct Hcs as [-> | ->].
-        * exists (set_so t1 false). cbn [cs_tok run fold_left step].
-          assert (E0 : (0 =? 0) = true) by reflexivity. unfold cs_tok. rewrite E0. cbn [step].
-          splits; auto using RowSt_set_so, SameFrame_set_so; cbn; try congruence.
-          -- unfold cur_cs. cbn. rewrite Hib1, Iibm. reflexivity.
-          -- apply Inv_mk_narrow; cbn; auto; congruence.
-        * exists (set_so t1 true). unfold cs_tok.
-          assert (E0 : (1 =? 0) = false) by reflexivity. assert (E2 : (1 =? 2) = false) by reflexivity.
-          rewrite E0, E2. cbn [run fold_left step].
-          splits; auto using RowSt_set_so, SameFrame_set_so; cbn; try congruence.
-          -- unfold cur_cs. cbn. rewrite Hib1, Iibm, Hg11, Ig1. reflexivity.
-          -- apply Inv_mk_narrow; cbn; auto; congruence.
+      + destruct (cs_switch_ok c (r_first rs) (r_lcs rs) cs t1 U Ics1 Hcs) as (Et & Hcur & Hinv).
+        eexists. split; [reflexivity|]. rewrite Et in *.
+        splits; auto using RowSt_set_so, RowSt_set_ibm, SameFrame_set_so, SameFrame_set_ibm.
       + exists t1. assert (Hf : r_first rs = false) by (destruct (r_first rs); [discriminate|reflexivity]).
         assert (Hlcs : r_lcs rs = cs).
         { apply orb_false_elim in S as [_ S2]. apply negb_false_iff in S2. apply Z.eqb_eq in S2. exact S2. }
-        splits; auto; try congruence.
-        * unfold cur_cs. rewrite Hib1, Iibm, Hso1, (Hfirst Hf), Hg11, Ig1. rewrite Hlcs.
-          destruct Hcs as [-> | ->]; reflexivity.
-        * rewrite Hlcs. apply Inv_mk_narrow; auto; try congruence.
-          rewrite Hso1, (Hfirst Hf), Hlcs. reflexivity. }
+        rewrite Hf in Ics1. splits; auto. rewrite <- Hlcs. apply (cs_same_ok c); assumption. }
   destruct H2 as (t2 & -> & HR2 & HF2 & Hat2 & Hir2 & Hcs2' & HI2).
   (* text *)
   assert (Hcols2 : t_cols t2 = t_cols t) by (rewrite (SameFrame_cols _ _ _ HF2), (SameFrame_cols _ _ _ HF); reflexivity).
@@ -335,11 +379,9 @@ Proof.
   { eapply Forall_chr_ok_w12; eauto. }
   { rewrite Hcols2. exact Hfit. }
   exists R'. rewrite Hcs2', Hat2 in HR3. split; [exact HR3|]. split; [exact HF3|]. split; [|reflexivity].
-  destruct HM3 as (M1 & M2 & M3 & M4). destruct HI2 as (J1 & J2 & J3 & J4).
-  unfold Inv. cbn [r_last r_first r_lcs] in *. rewrite M1, M2, M3, M4.
-  splits; auto.
-  destruct (g_utf8 c); auto.
-  destruct J4 as (K1 & K2 & K3). rewrite (SameFrame_g1 t0 t2 _ y HF2 HF3). auto.
+  destruct HM3 as (M1 & M2 & M3 & M4).
+  unfold Inv. cbn [r_last r_first r_lcs]. rewrite M1, M2. splits; auto.
+  unfold CsInv in *. rewrite M3, M4, (SameFrame_g1 t0 t2 _ y HF2 HF3). exact HI2.
 Qed.
 
 Lemma row_width_cons r row : row_width (r :: row) = calc_width (snd r) + row_width row.
@@ -579,12 +621,20 @@ Proof.
     destruct (emit_runs c s1 (front ++ [r])) as [t2 s2]. exact IH.
 Qed.
 
-Definition RowDone (c : cfg) (t1 t2 : term) (y : Z) (row : crow) (rs2 : rstate) (keep_inv : Prop) : Prop :=
-  row_shows c row (get_row (t_grid t2) y) /\ SameFrame t1 t2 y /\
-  t_ibm t2 = false /\ t_irm t2 = false /\ (g_utf8 c = true -> t_so t2 = false) /\ (keep_inv -> Inv c rs2 t2).
+(* what survives a row whatever happened in it: insert mode off; IBMPC selected only if the loop knows it *)
+Definition Modes (c : cfg) (rs : rstate) (t : term) : Prop :=
+  t_irm t = false /\ (t_ibm t = true -> g_utf8 c = false /\ r_lcs rs = 2) /\ (g_utf8 c = true -> t_so t = false).
 
-Lemma Inv_modes c rs t : Inv c rs t -> t_ibm t = false /\ t_irm t = false /\ (g_utf8 c = true -> t_so t = false).
-Proof. intros (_ & H1 & H2 & H3). splits; auto. intros U. rewrite U in H3. exact H3. Qed.
+Definition RowDone (c : cfg) (t1 t2 : term) (y : Z) (row : crow) (rs2 : rstate) (keep_inv : Prop) : Prop :=
+  row_shows c row (get_row (t_grid t2) y) /\ SameFrame t1 t2 y /\ t_y t2 = y /\
+  Modes c rs2 t2 /\ (keep_inv -> Inv c rs2 t2).
+
+Lemma Inv_modes c rs t : Inv c rs t -> Modes c rs t.
+Proof.
+  intros (_ & H2 & H3). unfold Modes. splits; auto.
+  - apply (CsInv_ibm _ _ _ _ H3).
+  - intros U. apply (CsInv_so_utf8 _ _ _ _ H3 U).
+Qed.
 
 Lemma zlen_row_cells c row : Forall (run_ok' c) row -> zlen (row_cells c row) = row_width row.
 Proof.
@@ -603,17 +653,17 @@ Proof.
   intros Hc Hok HI HR HF Hy Hw.
   destruct (emit_runs_ok c row rs t0 t y [] R0 Hc Hok HI HR HF Hy) as (R' & HR' & HF' & HI' & _).
   { rewrite zlen_nil. lia. }
-  cbn [app] in HR'. destruct HR' as (_ & Hrow & Hlen & _).
+  cbn [app] in HR'. destruct HR' as (Hty & Hrow & Hlen & _).
   rewrite zlen_row_cells in Hlen by assumption.
   rewrite (SameFrame_cols _ _ _ HF'), <- (SameFrame_cols _ _ _ HF) in Hlen.
   assert (R' = []) by (apply zlen_zero_nil; lia). subst R'. rewrite app_nil_r in Hrow.
-  pose proof (Inv_modes _ _ _ HI') as (M1 & M2 & M3).
+  pose proof (Inv_modes _ _ _ HI') as HM.
   unfold RowDone. splits; auto. unfold row_shows. rewrite Hrow. apply Forall2_vis_refl.
 Qed.
 
 Lemma Inv_same_modes c rs t t' : SameModes t t' -> t_g1 t' = t_g1 t -> Inv c rs t -> Inv c rs t'.
 Proof.
-  intros (M1 & M2 & M3 & M4) G (I1 & I2 & I3 & I4). unfold Inv. rewrite M1, M2, M3, M4, G. splits; auto.
+  intros (M1 & M2 & M3 & M4) G (I1 & I2 & I3). unfold Inv, CsInv in *. rewrite M1, M2, M3, M4, G. splits; auto.
 Qed.
 
 Lemma sul_false_flags c a : using_sul c a = false ->
@@ -681,7 +731,11 @@ Proof.
   { rewrite HzP, Hcols2. lia. }
   assert (E4 : Inv c rs2 (step t2 TEl)).
   { eapply Inv_same_modes; [exact HM3| |exact HI']. eapply SameFrame_g1; eauto. }
-  pose proof (Inv_modes _ _ _ E4) as (E1 & E2 & E3).
+  pose proof (Inv_modes _ _ _ E4) as E1.
+  assert (Hty : t_y (step t2 TEl) = y).
+  { destruct (el_ok t0 t2 y _ _ HR' HF') as (_ & _ & _ & _ & Hy3 & _);
+      [rewrite (SameFrame_len _ _ _ HF'); exact Hy|rewrite HzP, Hcols2; lia|].
+    rewrite Hy3. apply HR'. }
   unfold RowDone. splits; auto.
   - unfold row_shows. rewrite Hrow.
     rewrite row_cells_app, row_cells_single, run_cells_split.
@@ -760,7 +814,7 @@ Proof.
   pose proof HR2 as (Hy2 & Hrow2 & Hlen2' & _ & Hpos2).
   assert (Elt : zlen (row_cells c nr) <? t_cols t2 = true) by lia. rewrite Elt in Hpos2. destruct Hpos2 as [Hx2 Hp2].
   assert (HzR' : zlen R' = snd yc) by lia.
-  pose proof (Inv_modes _ _ _ HI2) as (Hibm2 & Hirm2 & Hso2).
+  destruct HI2 as (_ & Hirm2 & Hcs2).
   (* backspaces *)
   unfold emit_ins. rewrite !run_app. fold t2.
   assert (Hbs : run t2 (repeat TBs (Z.to_nat (snd zc))) = set_pos t2 (zlen (row_cells c nr0)) y false).
@@ -774,25 +828,21 @@ Proof.
   assert (HF3 : SameFrame t0 t3 y) by (unfold SameFrame in *; cbn; exact HF2).
   (* attribute of Y *)
   rewrite attr_escape_run by assumption. set (t4 := set_attr t3 (attr_vis c ya)).
+  assert (Hcs4 : CsInv c (r_first rs2) (r_lcs rs2) t4) by (unfold CsInv in *; cbn; exact Hcs2).
   (* charset of Y *)
   set (tc := if negb (g_utf8 c) then (if r_lcs rs2 =? 2 then [TIbmOff] else []) ++ [cs_tok ycs] else []).
   assert (H5 : exists t5, run t4 tc = t5 /\ RowSt t5 y (row_cells c nr0) (Zc ++ R') /\ SameFrame t0 t5 y
-                 /\ t_attr t5 = attr_vis c ya /\ cur_cs t5 = ycs /\ t_ibm t5 = false /\ t_irm t5 = false
-                 /\ (g_utf8 c = true -> t_so t5 = false)).
+                 /\ t_attr t5 = attr_vis c ya /\ cur_cs t5 = ycs /\ t_irm t5 = false
+                 /\ (if g_utf8 c then t_so t5 = false /\ t_ibm t5 = false else t_ibm t5 = (ycs =? 2))).
   { unfold tc. destruct (g_utf8 c) eqn:U; cbn [negb].
-    - exists t4. subst ycs. splits; auto using RowSt_set_attr, SameFrame_set_attr.
-      unfold cur_cs. cbn. rewrite Hibm2, (Hso2 eq_refl). reflexivity.
-    - destruct HI2 as (_ & _ & _ & HI2). rewrite U in HI2. destruct HI2 as (Hg1 & Hl & _).
-      assert (L2 : r_lcs rs2 =? 2 = false) by (destruct Hl as [Hl|Hl]; rewrite Hl; reflexivity). rewrite L2. cbn [app].
-      destruct Hycs as [-> | ->].
-      + exists (set_so t4 false). unfold cs_tok. change (0 =? 0) with true. cbn [run fold_left step].
-        splits; auto using RowSt_set_so, RowSt_set_attr, SameFrame_set_so, SameFrame_set_attr; try discriminate.
-        unfold cur_cs. cbn. rewrite Hibm2. reflexivity.
-      + exists (set_so t4 true). unfold cs_tok. change (1 =? 0) with false. change (1 =? 2) with false.
-        cbn [run fold_left step].
-        splits; auto using RowSt_set_so, RowSt_set_attr, SameFrame_set_so, SameFrame_set_attr; try discriminate.
-        unfold cur_cs. cbn. rewrite Hibm2, Hg1. reflexivity. }
-  fold tc. destruct H5 as (t5 & -> & HR5 & HF5 & Hat5 & Hcs5 & Hibm5 & Hirm5 & Hso5).
+    - exists t4. subst ycs. destruct (cs_utf8_ok c _ _ t4 U Hcs4) as [Hc0 _].
+      splits; auto using RowSt_set_attr, SameFrame_set_attr.
+      + apply (CsInv_so_utf8 _ _ _ _ Hcs4 U).
+      + apply (CsInv_so_utf8 _ _ _ _ Hcs4 U).
+    - destruct (cs_switch_ok c (r_first rs2) (r_lcs rs2) ycs t4 U Hcs4 Hycs) as (Et & Hcur & _).
+      eexists. split; [reflexivity|]. rewrite Et in *.
+      splits; auto using RowSt_set_so, RowSt_set_ibm, RowSt_set_attr, SameFrame_set_so, SameFrame_set_ibm, SameFrame_set_attr. }
+  fold tc. destruct H5 as (t5 & -> & HR5 & HF5 & Hat5 & Hcs5 & Hirm5 & Hmode5).
   (* insert Y *)
   cbn [map]. rewrite (run_cons t5 TIrmOn). cbn [step]. set (t6 := set_irm t5 true).
   rewrite (run_cons t6 (ch_tok yc)). unfold ch_tok. cbn [step].
@@ -802,20 +852,33 @@ Proof.
   destruct (put_ins_ok t0 t6 y (row_cells c nr0) Zc R' (fst yc) (snd yc) HR6 HF6 Hy6 eq_refl Hwy HzR' HwZ)
     as (HR7 & HF7 & HM7).
   set (t7 := put t6 (fst yc) (snd yc)) in *.
-  assert (Etail : (if negb (g_utf8 c) && (ycs =? 2) then [TIbmOff] else []) = []).
-  { destruct (g_utf8 c); [reflexivity|]. destruct Hycs as [-> | ->]; reflexivity. }
-  rewrite Etail. cbn [run fold_left step].
   destruct HM7 as (M1 & M2 & M3 & M4). cbn in M1, M2, M3, M4.
-  unfold RowDone. splits; try (cbn; congruence); try contradiction.
-  - unfold row_shows. cbn [t_grid set_irm].
+  (* insert mode off, IBMPC off again if Y was drawn in it *)
+  rewrite (run_cons t7 TIrmOff). cbn [step].
+  set (tail := if negb (g_utf8 c) && (ycs =? 2) then [TIbmOff] else []).
+  assert (H8 : exists t8, run (set_irm t7 false) tail = t8 /\ t_grid t8 = t_grid t7 /\ SameFrame t0 t8 y /\ t_y t8 = y
+                 /\ t_irm t8 = false /\ t_ibm t8 = false /\ (g_utf8 c = true -> t_so t8 = false)).
+  { assert (Y7 : t_y t7 = y) by apply HR7.
+    unfold tail. destruct (g_utf8 c) eqn:U; cbn [negb andb].
+    - exists (set_irm t7 false). destruct Hmode5 as [S5 I5].
+      splits; try reflexivity; try exact Y7; try (unfold SameFrame in *; cbn; exact HF7); try (cbn; congruence).
+      intros _. cbn. congruence.
+    - destruct (ycs =? 2) eqn:E2.
+      + exists (set_ibm (set_irm t7 false) false).
+        splits; try reflexivity; try exact Y7; try (unfold SameFrame in *; cbn; exact HF7); try (intros; discriminate).
+      + exists (set_irm t7 false).
+        splits; try reflexivity; try exact Y7; try (unfold SameFrame in *; cbn; exact HF7); try (cbn; congruence);
+          try (intros; discriminate). }
+  fold tail. destruct H8 as (t8 & -> & Hg8 & HF8 & Hy8 & Hirm8 & Hibm8 & Hso8).
+  unfold RowDone. splits; auto; try contradiction.
+  - unfold row_shows. rewrite Hg8.
     destruct HR7 as (_ & Hrow7 & _). rewrite Hrow7.
     assert (EY : char_cells (fst yc) (snd yc) (cur_cs t6) (t_attr t6) = Yc).
     { unfold Yc. cbn [run_cells flat_map]. rewrite app_nil_r.
       replace (cur_cs t6) with ycs by (unfold cur_cs in *; cbn; exact (eq_sym Hcs5)).
       replace (t_attr t6) with (attr_vis c ya) by (cbn; congruence). reflexivity. }
     rewrite EY, Hcells, <- app_assoc. apply Forall2_vis_refl.
-  - unfold SameFrame in *. cbn. exact HF7.
-  - intros U. cbn. rewrite M3. cbn. apply Hso5. exact U.
+  - unfold Modes. splits; auto. intros H. congruence.
 Qed.
 
 (* ================= 7. the row loop ================= *)
